@@ -162,7 +162,8 @@ def gen_code_list(rng, maxn=8, tail_incomplete=True, unknown=True, reset=True):
 
 HOSTILE_BODIES = ['\xb2', '1;\xb2', '\u2460', '\u0663', '\uff11', '1 ', ' 1', '?1', '1:2', '3x', '\xb9\u2075', '1;;\xb3',
                   '+1', '-1', '1_0', '0x1', '1.5', '1e2', '\t1', '38;5;\xb2', '999999999999999999999', '\x00', '\n']
-NON_SGR = [ESC + '[2J', ESC + '[?25h', ESC + '[1;1H', ESC + '[K', ESC + '[10A', ESC + '[?25l', ESC + '[6n']
+NON_SGR = [ESC + '[2J', ESC + '[?25h', ESC + '[1;1H', ESC + '[K', ESC + '[10A', ESC + '[?25l', ESC + '[6n',
+           ESC + '[>4;2m', ESC + '[?1m', ESC + '[>4m', ESC + '[1:2m', ESC + '[=1m']
 UNTERMINATED = [ESC + '[', ESC + '[1', ESC + '[1;31', ESC + '[?2']
 
 
@@ -186,6 +187,11 @@ def gen_ansi_input(rng, maxlen=12):
                 body = ';'.join(str(t) for t in toks)
                 if rng.random() < 0.05:
                     body = ''
+                elif rng.random() < 0.08:
+                    # an empty parameter stands for 0
+                    parts_ = body.split(';') if body else []
+                    parts_.insert(rng.randint(0, len(parts_)), '')
+                    body = ';'.join(parts_) if len(parts_) > 1 else ';'
                 parts.append(ESC + '[' + body + 'm')
         parts.append(gen_text(rng, maxlen=max(1, maxlen // 2)))
     if rng.random() < 0.15:
@@ -772,7 +778,7 @@ class HistoryGen:
             self.ex.run(op)
 
 
-FILLS = ['', ' ', '*', ':', '+', '-', '<', '>', '^', '0', '9', 'é', 'x']
+FILLS = ['', ' ', '*', ':', '+', '-', '<', '>', '^', '0', '9', 'é', 'x', '\n', '\t']
 ANSI_PARTS = ['red', 'bold', 'underline;red', 'rgb(1,2,3)', 'bg_blue;italic', '1;31', 'blue', '[4', 'no_bold_faint',
               'ul_rgb(0x010203)', 'color256(9)', '', 'BOLD;Red']
 
@@ -780,7 +786,8 @@ ANSI_PARTS = ['red', 'bold', 'underline;red', 'rgb(1,2,3)', 'bg_blue;italic', '1
 def gen_format_spec(rng, n, profile='wf', invalid_ok=True):
     r = rng.random()
     if invalid_ok and r < 0.08:
-        return rng.choice(['+5', ' 5', '<+5', 'ab<5', '5x', '=5', 'x', '<<5', '^ 5', '-', '5.2', '<5d', 'é'])
+        return rng.choice(['+5', ' 5', '<+5', 'ab<5', '5x', '=5', 'x', '<<5', '^ 5', '-', '5.2', '<5d', 'é', '>5\n', '5\n',
+                           '*^6\n', '\n', '>5:bold\n', '>99999999999999999999', '99999999999999999999:red', ':red\n'])
     fill = rng.choice(FILLS)
     flag = rng.choice(['', '', '+', '-'])
     align = rng.choice(['<', '>', '^', '<', '>', '^', ''])
